@@ -401,3 +401,52 @@ impl<T: Sc> DynModel<T> for Tamper<T> {
         Box::new(self.clone())
     }
 }
+
+/// Counts the model calls that returned an error (shared by clones).
+pub struct ErrCounter<T: Sc> {
+    pub inner: BM<T>,
+    pub errs: Arc<AtomicU64>,
+}
+impl<T: Sc> ErrCounter<T> {
+    pub fn wrap(inner: BM<T>) -> (BM<T>, Arc<AtomicU64>) {
+        let errs = Arc::new(AtomicU64::new(0));
+        (BM(Box::new(ErrCounter { inner, errs: errs.clone() })), errs)
+    }
+    fn note<R>(&self, r: Result<R, MErr>) -> Result<R, MErr> {
+        if r.is_err() {
+            self.errs.fetch_add(1, Ordering::SeqCst);
+        }
+        r
+    }
+}
+impl<T: Sc> SeparableNonlinearModel for ErrCounter<T> {
+    type ScalarType = T;
+    type Error = MErr;
+    fn parameter_count(&self) -> usize {
+        self.inner.parameter_count()
+    }
+    fn base_function_count(&self) -> usize {
+        self.inner.base_function_count()
+    }
+    fn output_len(&self) -> usize {
+        self.inner.output_len()
+    }
+    fn set_params(&mut self, p: OVector<T, Dyn>) -> Result<(), MErr> {
+        let r = self.inner.set_params(p);
+        self.note(r)
+    }
+    fn params(&self) -> OVector<T, Dyn> {
+        self.inner.params()
+    }
+    fn eval(&self) -> Result<OMatrix<T, Dyn, Dyn>, MErr> {
+        self.note(self.inner.eval())
+    }
+    fn eval_partial_deriv(&self, k: usize) -> Result<OMatrix<T, Dyn, Dyn>, MErr> {
+        self.note(self.inner.eval_partial_deriv(k))
+    }
+}
+impl<T: Sc> DynModel<T> for ErrCounter<T> {
+    fn clone_box(&self) -> Box<dyn DynModel<T>> {
+        Box::new(ErrCounter { inner: self.inner.clone(), errs: self.errs.clone() })
+    }
+}
